@@ -111,3 +111,19 @@ class Mixed2(D3, Other):
 TwinA = type("Twin", (), {"__module__": __name__})
 TwinB = type("Twin", (), {"__module__": __name__})
 Twin = TwinB
+
+
+def _define_local_base():
+    class Base:  # noqa: F811
+        pass
+
+    return Base
+
+
+_LOCAL_BASE = _define_local_base()
+
+
+def make_local_base():
+    """an instance of a class defined inside a function (its qualified name contains `<locals>`: it cannot be found again by
+    module + qualified name) whose simple name coincides with the module-level `Base`"""
+    return _LOCAL_BASE()
